@@ -540,6 +540,14 @@ func TestVerifC09(t *testing.T) {
 	// ---- end to end through rest.Server (sample)
 	kit.Run(t, "C09", "e2e", kit.N(2, 20), func(c *kit.Case) { e2e(c) })
 	kit.Run(t, "C09", "e2e-groups", kit.N(16, 120), func(c *kit.Case) { e2eGroups(c) })
+
+	// ---- wider public surface (see the file comments): illegal tables through rest.Server,
+	// custom 404/405 handlers, server/route options, escaped request targets, the tree's own API
+	kit.Run(t, "C09", "e2e-reject", kit.N(400, 6000), func(c *kit.Case) { e2eReject(c) })
+	kit.Run(t, "C09", "custom-handlers", kit.N(600, 20000), func(c *kit.Case) { customHandlers(c) })
+	kit.Run(t, "C09", "tree-direct", kit.N(200, 4000), func(c *kit.Case) { treeDirect(c) })
+	kit.Run(t, "C09", "server-options", kit.N(240, 4000), func(c *kit.Case) { serverOptions(c) })
+	kit.Run(t, "C09", "e2e-escaped", kit.N(16, 120), func(c *kit.Case) { e2eEscaped(c) })
 	kit.End()
 }
 
